@@ -3,14 +3,16 @@
    meanstat_new / merge / reduce / result, sumstat_*, safe_div, mean_metric_zero,
    sum_metric_zero are the definitions translated on this run from
    fedjax/core/metrics.py and fedjax/core/util.py (gen/Gen_metrics.v, gen/Gen_util.v);
-   mean_alg / sum_alg package them; evaluate_batch / evaluate_model are the models of
-   metrics.evaluate_batch and models.evaluate_model / ModelEvaluator (Model/C05_Model.v).
+   mean_alg / sum_alg package them; evaluate_batch / evaluate_model / evaluator_client are
+   metrics.apply_mask + evaluate_batch (gen/Gen_metrics.v) and models._evaluate_model_step,
+   evaluate_model, ModelEvaluator's client functions (gen/Gen_models.v), also translated on
+   this run, instantiated with the rank-K liftings of Model/C05_Model.v.
    A statistic of rank > 0 (per position, per domain, confusion matrix) is the list of
-   its K rank-0 entries.  A batch is (mask, rows); rows are the per-example statistics
+   its K rank-0 entries.  A batch is (mask or None = no mask key, rows); rows are the per-example statistics
    of ALL rows, real and padding.  Values live in NanQ.t = option Q, None = a non-finite
    float: the rows whose mask bit is false are arbitrary, None included. *)
 From Coq Require Import ZArith QArith List Permutation Bool.
-From FV Require Import Common.Batch Common.CMonoid Common.NanQ gen.Gen_util gen.Gen_metrics
+From FV Require Import Common.Batch Common.CMonoid Common.NanQ gen.Gen_util gen.Gen_metrics gen.Gen_models
   Model.C05_Model Proofs.C05_Proofs.
 Import ListNotations.
 Local Open Scope Q_scope.
@@ -81,13 +83,39 @@ Proof. exact evaluate_batch_is_fold. Qed.
 (* no batch, or only batches whose rows are all masked (whatever they contain): every
    entry of the result is 0 -- Some 0, never None *)
 Theorem C05_empty_is_zero_not_nan :
-  (forall K (batches : list (list bool * list (list (NanQ.t * NanQ.t)))),
-     Forall (fun b => Forall (fun m => m = false) (fst b)) batches ->
+  (forall K (batches : list (option (list bool) * list (list (NanQ.t * NanQ.t)))),
+     Forall (fun b => Forall (fun m => m = false) (mask_of b)) batches ->
      Forall2 NanQ.eq (evaluate_model mean_alg K batches) (repeat (Some 0) K)) /\
-  (forall K (batches : list (list bool * list (list NanQ.t))),
-     Forall (fun b => Forall (fun m => m = false) (fst b)) batches ->
+  (forall K (batches : list (option (list bool) * list (list NanQ.t))),
+     Forall (fun b => Forall (fun m => m = false) (mask_of b)) batches ->
      Forall2 NanQ.eq (evaluate_model sum_alg K batches) (repeat (Some 0) K)).
 Proof. exact empty_is_zero_not_nan. Qed.
+
+(* ModelEvaluator (global or per-client params): the translated client_init / client_step /
+   client_final, folded over one client's batches, are evaluate_model of those batches, so all the
+   statements above hold per client (for_each_client = sequential fold per client is C02) *)
+Theorem C05_evaluator_is_evaluate_model :
+  (forall K batches, evaluator_client mean_alg K batches = evaluate_model mean_alg K batches) /\
+  (forall K batches, evaluator_client sum_alg K batches = evaluate_model sum_alg K batches).
+Proof. exact evaluator_client_is_evaluate_model. Qed.
+
+(* a batch without a mask key gets the all-True mask: every row is a real example *)
+Theorem C05_no_mask_key_all_real :
+  (forall (rows : list (list (NanQ.t * NanQ.t))), real_examples [(None, rows)] = rows) /\
+  (forall (rows : list (list NanQ.t)), real_examples [(None, rows)] = rows).
+Proof. exact no_mask_key_all_real. Qed.
+
+(* zero() of every built-in metric class is the identity of its Stat type (mean_metric_zero is
+   CrossEntropyLoss.zero, sum_metric_zero is SequenceTokenCount.zero; ConfusionMatrix / PerDomainMetric
+   zeros are arrays / broadcasts of these, checked structurally by the anchor) *)
+Theorem C05_builtin_zeros :
+  zero_Accuracy = mean_metric_zero /\ zero_TopKAccuracy = mean_metric_zero /\
+  zero_SequenceTokenCrossEntropyLoss = mean_metric_zero /\ zero_SequenceCrossEntropyLoss = mean_metric_zero /\
+  zero_SequenceTokenAccuracy = mean_metric_zero /\ zero_SequenceTokenTopKAccuracy = mean_metric_zero /\
+  zero_SequenceTruncationRate = mean_metric_zero /\ zero_SequenceTokenOOVRate = mean_metric_zero /\
+  zero_SequenceLength = mean_metric_zero /\
+  zero_SequenceCount = sum_metric_zero /\ zero_ConfusionMatrix_entry = sum_metric_zero.
+Proof. exact builtin_zeros. Qed.
 
 (* result() on the domain: accum / weight, 0 when the weight is 0 (safe_div) *)
 Theorem C05_result_on_domain : forall a w, qD (a, w) ->
@@ -98,13 +126,15 @@ Proof. exact mean_result_on_domain. Qed.
    padding rows hold NaN; a fully masked batch; out-of-domain values sanitised *)
 Example C05_example :
   C05_agree (CMean ApiModel 1
-      [([true; false; true], [[(Some 1, Some 1)]; [(None, None)]; [(Some 0, Some 1)]]);
-       ([false; true], [[(None, Some 5)]; [(Some 1, Some 1)]])])
+      [(Some [true; false; true], [[(Some 1, Some 1)]; [(None, None)]; [(Some 0, Some 1)]]);
+       (Some [false; true], [[(None, Some 5)]; [(Some 1, Some 1)]])])
     (mkO05 0 [Some (2 # 3)] None) = true /\
-  C05_agree (CMean ApiModel 2 [([false], [[(None, None); (Some 7, Some 1)]])]) (mkO05 0 [Some 0; Some 0] None) = true /\
-  C05_agree (CSum ApiModel 1 [([true; true], [[Some 2]; [Some 3]]); ([], [])]) (mkO05 0 [Some 5] None) = true /\
+  C05_agree (CMean ApiEvaluator 1 [(None, [[(Some 1, Some 1)]; [(Some 0, Some 1)]])]) (mkO05 0 [Some (1 # 2)] None) = true /\
+  C05_agree (CMean ApiModel 2 [(Some [false], [[(None, None); (Some 7, Some 1)]])]) (mkO05 0 [Some 0; Some 0] None) = true /\
+  C05_agree (CSum ApiModel 1 [(Some [true; true], [[Some 2]; [Some 3]]); (None, [])]) (mkO05 0 [Some 5] None) = true /\
+  C05_agree (CSum ApiBatch 1 [(None, [[Some 2]; [Some 3]])]) (mkO05 0 [Some 5] (Some [Some 5])) = true /\
   C05_agree (CNew (Some 5) (Some (-1))) (mkO05 0 [] (Some [Some 0; Some 0])) = true /\
-  C05_agree (CMean ApiModel 1 [([true], [[(Some 1, Some 1)]])]) (mkO05 0 [Some 0] None) = false /\
+  C05_agree (CMean ApiModel 1 [(Some [true], [[(Some 1, Some 1)]])]) (mkO05 0 [Some 0] None) = false /\
   Dmean (qlift (1, 1)) /\ qD (0, 0).
 Proof.
   vm_compute. repeat split; try (left; split; reflexivity).
@@ -118,4 +148,7 @@ Print Assumptions C05_batch_is_fold_of_examples.
 Print Assumptions C05_batchings_agree.
 Print Assumptions C05_evaluate_batch_is_fold.
 Print Assumptions C05_empty_is_zero_not_nan.
+Print Assumptions C05_evaluator_is_evaluate_model.
+Print Assumptions C05_no_mask_key_all_real.
+Print Assumptions C05_builtin_zeros.
 Print Assumptions C05_result_on_domain.
